@@ -852,6 +852,12 @@ func (s *session) redialForClient(oldConn net.Conn) bool {
 	if s.redialForClientLocked == nil {
 		return false
 	}
+	// A session that this side is closing is never redialed (the status test below refuses it
+	// too). Decide that before waiting for the lock: Close holds it while it waits for the
+	// running handlers, and the caller may be one of them.
+	if status := s.getStatus(); status == statusActiveClosing || status == statusActiveClosed {
+		return false
+	}
 	s.lock.Lock()
 	defer s.lock.Unlock()
 	verifGate("redial.locked", s)
